@@ -215,6 +215,7 @@ func TestC07Sim(t *testing.T) {
 // C08: failure handling and the reported verdict are sound.
 func TestC08(t *testing.T) {
 	cfg := &Cfg{Prop: "C08", MaxPipelines: 2, MaxTasks: 6, DelayPct: 5, ReplacePct: 5, AllowFailPct: 30, ContinuePct: 50, EmptyPct: 5,
+		Shapes:       []string{"random", "random", "dense", "layered", "diamond"},
 		LimitChoices: []int{-1, -1, 2}, Weights: map[string]int{"schedule": 18, "cancel": 4, "finish": 60, "timer": 3, "hold": 6, "release": 7},
 		Armed: map[string]bool{"C08": true}}
 	runHistories(t, histOpts{cfg: cfg, failPct: 35,
@@ -225,12 +226,13 @@ func TestC08(t *testing.T) {
 // C15: what the API reports agrees with what the runner does.
 func TestC15(t *testing.T) {
 	cfg := &Cfg{Prop: "C15", MaxPipelines: 3, MaxTasks: 5, DelayPct: 30, ReplacePct: 30, CyclicPct: 10, ReservedPct: 8, AllowFailPct: 15, ContinuePct: 30,
-		LimitChoices: []int{-1, 0, 1, 2, 3}, Weights: map[string]int{"schedule": 36, "cancel": 10, "finish": 28, "timer": 10, "hold": 3, "release": 5, "reload": 6, "save": 5, "restart": 3},
+		LimitChoices: []int{-1, 0, 1, 2, 3}, Weights: map[string]int{"schedule": 36, "cancel": 10, "finish": 28, "timer": 10, "hold": 3, "release": 5, "reload": 6, "save": 3, "restart": 3, "saveRetention": 5},
 		ReloadKinds: []string{"removePipeline", "removePipeline", "addPipeline", "addPipeline", "conc", "limit", "script", "delay", "rewire", "addTask"},
 		DiskStore:   true,
+		Retention:   true,
 		Armed:       map[string]bool{"C15": true}}
 	runHistories(t, histOpts{cfg: cfg, failPct: 20,
-		rule:       "general histories with reloads that remove and re-add pipelines and explicit saves (so that jobs of a removed pipeline are purged while they run and the pipeline comes back), and probes in which a second runner is started from the saved state (its listing must agree with the jobs it reports: all terminal, so nothing running); at every quiescent point: schedulable flag read before each request vs. its acceptance (both directions), running flag vs. started-unfinished jobs vs. the runner log, every accepted job found by id, in IterateJobs and in GET /pipelines/jobs (newest first by true creation time), /job/detail 200/404, created<=start<=end, tasks after their dependencies and in the same order for every job of one definition; non-trivial = a quiescent point at which a pipeline is running or not schedulable; distinct by action trace",
+		rule:       "general histories with reloads that remove and re-add pipelines and explicit saves (so that jobs of a removed pipeline are purged while they run and the pipeline comes back), pipelines with retention settings (a job is reported until retention removes it, and retention removes the oldest finished jobs first), and probes in which a second runner is started from the saved state (its listing must agree with the jobs it reports: all terminal, so nothing running); at every quiescent point: schedulable flag read before each request vs. its acceptance (both directions), running flag vs. started-unfinished jobs vs. the runner log, every accepted job found by id, in IterateJobs and in GET /pipelines/jobs (newest first by true creation time), /job/detail 200/404, created<=start<=end, tasks after their dependencies and in the same order for every job of one definition; non-trivial = a quiescent point at which a pipeline is running or not schedulable; distinct by action trace",
 		nontrivial: func(c map[string]int) bool { return c["listing:busy-point"] > 0 }})
 }
 
@@ -279,8 +281,8 @@ func TestC11Sim(t *testing.T) {
 
 // C11 (real-time part): every acknowledged change reaches the store within the persist interval.
 func TestC11Persist(t *testing.T) {
-	col := ev.Get("C11", "persist", "16 runners at a time, each driven through a generated short history (schedule/cancel/finish/timer/hold) without any explicit save, left alone for the persist interval, then given 0-2 late single changes - or one job completion that is deliberately placed behind the saves which the reports of its last task trigger (scheduler loop parked, last task finished, loop released after more than a persist interval), or a change that is acknowledged while a store write is in progress (the slow write being the persist loop's own save or an explicit save made while the loop pauses) - and left alone again; after 3 s (the persist interval) + 1.5 s slack the last snapshot the store received must equal the reported state of every job; a canary timer marks the batch inconclusive if the process was starved; non-trivial = the history changed state after the first automatic save (so the debounced second save is what must deliver it); distinct by action trace")
-	cfg := &Cfg{Prop: "C11", MaxPipelines: 2, MaxTasks: 3, DelayPct: 25, ReplacePct: 20, AllowFailPct: 15, ContinuePct: 30,
+	col := ev.Get("C11", "persist", "16 runners at a time, each driven through a generated short history (schedule/cancel/finish/timer/hold) without any explicit save, left alone for the persist interval, then given 0-2 late single changes (a replacement of a waiting job whenever the state allows one) - or one job completion that is deliberately placed behind the saves which the reports of its last task trigger (scheduler loop parked, last task finished, loop released after more than a persist interval), or a change that is acknowledged while a store write is in progress (the slow write being the persist loop's own save or an explicit save made while the loop pauses) - and left alone again; after 3 s (the persist interval) + 1.5 s slack the last snapshot the store received must equal the reported state of every job; a canary timer marks the batch inconclusive if the process was starved; non-trivial = the history changed state after the first automatic save (so the debounced second save is what must deliver it); distinct by action trace")
+	cfg := &Cfg{Prop: "C11", MaxPipelines: 2, MaxTasks: 3, DelayPct: 25, ReplacePct: 45, AllowFailPct: 15, ContinuePct: 30,
 		LimitChoices: []int{-1, -1, 2, 3}, Weights: map[string]int{"schedule": 34, "cancel": 10, "finish": 30, "timer": 8, "hold": 3, "release": 4},
 		Armed: map[string]bool{"C11": true}}
 	rapid.Check(t, func(rt *rapid.T) {
@@ -301,6 +303,8 @@ func TestC11Persist(t *testing.T) {
 			}
 			if pct(rt, 70, "leaveLastTasksRunning") {
 				m.PrepareLastTasks(rt)
+			} else {
+				m.PrepareReplaceWaiting(rt)
 			}
 		}
 		// let every persist loop become idle, then make single late changes: each of them must reach the
@@ -330,7 +334,9 @@ func TestC11Persist(t *testing.T) {
 					n = -1
 				}
 			}
-			if n >= 0 && pct(rt, 35, "changeDuringSlowSave") {
+			if n >= 0 && m.ReplaceWaitingLate(rt) {
+				n = 0
+			} else if n >= 0 && pct(rt, 35, "changeDuringSlowSave") {
 				if m.ChangeDuringSlowSave(rt, rapid.SampledFrom([]string{"loop", "explicit"}).Draw(rt, "slowSaveVariant")) {
 					n = 0
 				}
@@ -375,7 +381,7 @@ func TestC11Persist(t *testing.T) {
 					m.fail("C11", "job #%d: the store lags behind the reported state after the persist interval: %s", j.AcceptIdx, d)
 				}
 			}
-			col.Add(strings.Join(m.w.Trace, "\n"), saves >= 2, map[string]int{"second-automatic-save": btoi(saves >= 2), "jobs>=3": btoi(len(s.Jobs) >= 3), "completion-behind-save": m.w.Stats.Classes["completion-behind-save"], "completion-behind-save:no-candidate": m.w.Stats.Classes["completion-behind-save:no-candidate"], "prepared": m.w.Stats.Classes["prepared"], "change-during-slow-save:loop": m.w.Stats.Classes["change-during-slow-save:loop"], "change-during-slow-save:explicit": m.w.Stats.Classes["change-during-slow-save:explicit"]}, m.w.Stats.Steps, m.w.Trace)
+			col.Add(strings.Join(m.w.Trace, "\n"), saves >= 2, map[string]int{"second-automatic-save": btoi(saves >= 2), "jobs>=3": btoi(len(s.Jobs) >= 3), "completion-behind-save": m.w.Stats.Classes["completion-behind-save"], "completion-behind-save:no-candidate": m.w.Stats.Classes["completion-behind-save:no-candidate"], "prepared": m.w.Stats.Classes["prepared"], "change-during-slow-save:loop": m.w.Stats.Classes["change-during-slow-save:loop"], "change-during-slow-save:explicit": m.w.Stats.Classes["change-during-slow-save:explicit"], "late-change:replace-of-waiting-job": m.w.Stats.Classes["late-change:replace-of-waiting-job"]}, m.w.Stats.Steps, m.w.Trace)
 		}
 	})
 }
@@ -406,5 +412,28 @@ func TestC02Graphs(t *testing.T) {
 		m.Drain()
 		st := m.w.Stats
 		col.Add(strings.Join(m.w.Trace, "\n"), st.Classes["graph:fanin4"] > 0 || st.Classes["graph:cyclic"] > 0, st.Classes, st.Steps, m.w.Trace)
+	})
+}
+
+// C08 (graph-focused part): dense graphs in which a third of the tasks fail, many of them under allow_failure and
+// without an exit status, reported while readers keep the runner busy.
+func TestC08Graphs(t *testing.T) {
+	cfg := &Cfg{Prop: "C08", MaxPipelines: 1, MaxTasks: 7, MinTasks: 3, MaxConc: 2, AllowFailPct: 40, ContinuePct: 70,
+		Shapes: []string{"dense", "dense", "layered", "random", "diamond"}, LimitChoices: []int{-1},
+		Weights: map[string]int{"schedule": 1}, Armed: map[string]bool{"C08": true}}
+	col := ev.Get("C08", "graphs", "graph-focused cases: one pipeline with 3-7 tasks in dense / layered / diamond shapes (most tasks have several dependencies), 40% of the tasks allow_failure, continue mode in 70% of the cases; one or two jobs, every task is finished in generated order with a failure in a third of the deliveries (a quarter of the failures without an exit status, a quarter of them reported while three slow readers keep the runner's lock busy); oracle: the C08 clauses of the monitor over the runner log (no task runs with a failed non-allowed ancestor, seen from both ends; verdict of the job against the outcomes); non-trivial = a failure under allow_failure with a dependent, or a failure in a graph of >=3 tasks; distinct by action trace")
+	rapid.Check(t, func(rt *rapid.T) {
+		m := NewMachine(rt, cfg)
+		defer m.Close()
+		jobs := rapid.IntRange(1, 2).Draw(rt, "jobs")
+		for i := 0; i < jobs; i++ {
+			m.ActSchedule(rt)
+		}
+		for n := 0; n < 40 && len(m.openRuns()) > 0; n++ {
+			m.ActFinish(rt, 33)
+		}
+		m.Drain()
+		st := m.w.Stats
+		col.Add(strings.Join(m.w.Trace, "\n"), st.Classes["fail:with-3-tasks"] > 0 || st.Classes["fail-allowed:with-dependent"] > 0, st.Classes, st.Steps, m.w.Trace)
 	})
 }
